@@ -1,5 +1,5 @@
 """C15 — formatting never changes the program and is idempotent (DESIGN.md §3 C15)."""
-import json, os, subprocess, time
+import json, os, re, subprocess, sys, time
 import vlib
 from checks.c14 import Editor
 
@@ -57,6 +57,16 @@ def gen_text(rng, corp):
         elif k == 6 and len(lines) > 2: del lines[i]
         else: lines[i] = lines[i].lower() if rng.chance(1, 2) else lines[i].upper()
         t = "\n".join(lines)
+    if rng.chance(1, 5):
+        # unbalanced block structure: more closing keywords than opening ones (the indentation level must not go below zero)
+        stray = rng.pick(["END_IF", "END_VAR", "END_PROGRAM", "END_CASE", "UNTIL x > 1", "ELSE", "ELSIF a THEN", "END_FOR;", "end_while", "END_STRUCT;"])
+        k = rng.below(3)
+        lines = t.split("\n")
+        if k == 0: lines.insert(0, stray)
+        elif k == 1 and len(lines) > 2: del lines[0]; lines.insert(rng.below(len(lines)), stray)
+        else:
+            for _ in range(rng.range(1, 3)): lines.insert(rng.below(len(lines) + 1), stray)
+        t = "\n".join(lines)
     if rng.chance(1, 10): t = t.replace("\n", "\r\n")
     return t
 
@@ -70,7 +80,7 @@ def gen_config(rng):
     if rng.chance(1, 2): fmt["alignAssignments"] = bool(rng.below(2))
     if rng.chance(1, 2): fmt["maxLineLength"] = rng.pick([20, 40, 60, 80, 120])
     if rng.chance(1, 3): fmt["spacingStyle"] = rng.pick(["compact", "spaced"])
-    if rng.chance(1, 3): fmt["endKeywordStyle"] = rng.pick(["indented", "aligned"])
+    if rng.chance(1, 2): fmt["endKeywordStyle"] = rng.pick(["indented", "indented", "aligned"])
     return {"stLsp": {"format": fmt}}, {"tabSize": rng.pick([2, 4, 8]), "insertSpaces": bool(rng.below(4))}
 
 
@@ -81,6 +91,65 @@ def apply_edits(text, edits):
         if not ed.apply({"range": e["range"], "cps": [ord(c) for c in e["text"]]}):
             return None
     return "".join(chr(c) for c in ed.cps)
+
+
+def translate():
+    rc, out = vlib.run([sys.executable, os.path.join(vlib.VERIF, "translators", "c15_kinds.py"), vlib.REPO], timeout=120)
+    return rc == 0, out.strip()
+
+
+def spelled(name):
+    """KwEndFunctionBlock -> END_FUNCTION_BLOCK"""
+    return "_".join(w.upper() for w in re.findall(r"[A-Z][a-z0-9]*", name[2:]))
+
+
+def kinds_crosscheck(cbin, table):
+    """the translator numbers TokenKind variants by declaration order; the harness prints `kind as u16` next to the Debug name"""
+    want = dict((kv.split("=")[0], int(kv.split("=")[1])) for kv in table.split())
+    text = " ".join(spelled(n) for n in sorted(want))
+    out = hexrun(cbin, "kinds", [text])[0] or ""
+    got = dict((kv.split("=")[0], int(kv.split("=")[1])) for kv in out.split() if "=" in kv)
+    bad = ["%s: translator %d, harness %s" % (n, v, got.get(n)) for n, v in sorted(want.items()) if got.get(n) != v]
+    return bad
+
+
+def hexrun(binary, mode, texts):
+    inp = "\n".join(t.encode("utf-8", "surrogatepass").hex() for t in texts) + "\n"
+    p = subprocess.run([binary, mode], input=inp.encode(), stdout=subprocess.PIPE, stderr=subprocess.DEVNULL, timeout=600)
+    ls = p.stdout.decode().split("\n")[:len(texts)]
+    return [None if l.strip() == "PANIC" else l for l in ls] + [None] * (len(texts) - len(ls))
+
+
+def leading(line):
+    """(number of leading blanks, they are all the same character)"""
+    body = line.rstrip("\r")
+    k = len(body) - len(body.lstrip(" \t"))
+    return k, len(set(body[:k])) <= 1
+
+
+def indent_disagreement(model, fnw):
+    """model: per line an indentation level or '-'; the formatted text must write level*unit blanks, one unit per document"""
+    flines = fnw.split("\n")
+    if len(flines) != len(model):
+        return "the formatted text has %d lines, the source %d" % (len(flines), len(model))
+    unit = None
+    for i, (m, fl) in enumerate(zip(model, flines)):
+        if m == "-":
+            continue
+        lvl = int(m); k, homog = leading(fl)
+        if lvl < 0:
+            return "line %d: the model's level is %d" % (i, lvl)
+        if not homog:
+            return "line %d: mixed indentation characters" % i
+        if lvl == 0:
+            if k != 0: return "line %d: written with %d blanks at level 0" % (i, k)
+            continue
+        if unit is None:
+            if k % lvl or k == 0: return "line %d: %d blanks at level %d" % (i, k, lvl)
+            unit = k // lvl
+        elif k != unit * lvl:
+            return "line %d: %d blanks at level %d (unit %d)" % (i, k, lvl, unit)
+    return None
 
 
 def canon(binary, texts):
@@ -106,7 +175,14 @@ def check(tier):
     rng = vlib.Rng(vlib.seed())
     lsp = vlib.lsp_build()
     cbin = vlib.cargo_build("c15")
+    tr_ok, tr_msg = translate()
+    if tr_ok:
+        bad = kinds_crosscheck(cbin, tr_msg)
+        if bad:
+            tr_ok, tr_msg = False, "token-kind numbering differs from the lexer's: " + "; ".join(bad[:4])
     pr = vlib.prove(PROP, [EXTRACT])
+    if not tr_ok:
+        pr["ok"] = False; pr["failures"].append("translator c15_kinds.py: " + tr_msg[:300])
     driver = vlib.ocaml_build(PROP, use_zutil=False)
     os.makedirs(WORK, exist_ok=True)
     corp = corpus()
@@ -175,8 +251,30 @@ def check(tier):
             e = c["Oedits"][0]
             nS = c["text"].count("\n") + 1; nF = (c["Fnw"] or "").count("\n") + 1; nO = c["O"].count("\n") + 1
             mlines.append("%s : %d %d ; %s ; %s : %s" % (c["id"], c["line"], c["line"], enc(lines_of(S, nS)), enc(lines_of(FNW or [], nF)), enc(lines_of(O, nO))))
+    # indentation: the formatter's view of every line of the source (real lexer) -> Model/FmtIndent.v, against the blanks of the unwrapped formatted text
+    views = hexrun(cbin, "lines", [c["text"] for c in cases])
+    ilines = []
+    for c, v in zip(cases, views):
+        if v is None or c.get("Fnw") is None or c["panic"]:
+            continue
+        ents = [e.split() for e in v.split(" | ")]
+        al = 0 if c["config"]["stLsp"]["format"].get("endKeywordStyle") == "indented" else 1
+        ilines.append("i%s : I %d %d %s : -" % (c["id"], al, len(ents), " ".join(" ".join(e) for e in ents)))
     open(os.path.join(WORK, "model.txt"), "w").write("\n".join(mlines) + "\n")
     mres = vlib.corr_judge(driver, os.path.join(WORK, "model.txt")) if mlines else []
+    open(os.path.join(WORK, "indent.txt"), "w").write("\n".join(ilines) + "\n")
+    ires = vlib.corr_judge(driver, os.path.join(WORK, "indent.txt")) if ilines else []
+    byid = dict((c["id"], c) for c in cases)
+    ibad = []
+    levels = {}
+    for r in ires:
+        c = byid[r["id"][1:]]
+        why = "model driver: " + r["error"][:200] if "error" in r else indent_disagreement(r["model"].split(), c["Fnw"])
+        if why:
+            ibad.append((c, r, why))
+        elif "error" not in r:
+            for m in r["model"].split():
+                levels[m] = levels.get(m, 0) + 1
     def norm(encd):
         """token lines without trailing empty lines (an on-type edit on the empty last line may add a newline: white space only)"""
         t = [int(x) for x in encd.split()]; d = []; i = 1
@@ -202,6 +300,11 @@ def check(tier):
         r = mbad[0]
         path = vlib.write_replay(PROP, {"property": PROP, "broken": "correspondence Model/FmtEdit.v range_edit <-> format_lines_edit (on-type formatting)", "case_line": r.get("line", "")[:5000], "model": r.get("model"), "impl": r.get("impl")})
         violations.append((path, "the on-type edit is not 'replace the line by the same-numbered line of the formatted document'", True))
+    if ibad and not violations:
+        c, r, why = ibad[0]
+        path = vlib.write_replay(PROP, {"property": PROP, "broken": "correspondence Model/FmtIndent.v (indentation levels) <-> format_document", "why": why, "text": c["text"], "config": c["config"], "options": c["options"],
+                                        "range": c["range"], "line": c["line"], "model_levels": r.get("model"), "formatted_without_wrapping": c.get("Fnw")})
+        violations.append((path, "the formatted text is not indented as the model says: " + why, True))
     if not pr["ok"] and not violations:
         path = vlib.write_replay(PROP, {"property": PROP, "broken": "proof obligations of Properties/C15.v", "failures": pr["failures"]})
         violations.append((path, "proof/hygiene gate failed: " + "; ".join(pr["failures"])[:300], True))
@@ -213,9 +316,12 @@ def check(tier):
         "evaluations": 4 * len(cases), "distinct_nontrivial": len(set(c["text"] for c in cases if c.get("F") is not None and c["F"] != c["text"])),
         "rule": "texts: %d repository .st files (<= 3 kB) and 10 snippets aimed at the formatter (alignment, long call lines, strings / comments with runs of spaces, 'a - -b', multi-line pragma and comment, lower-case keywords, CASE / loops on one line), with 0-3 line-level perturbations and sometimes CRLF; configurations over indent width, tabs, keyword case, both alignments, maxLineLength 20-120, spacing and END-keyword style; for each: whole-document formatting (twice), a range request and an on-type request; every resulting text is re-lexed with the real lexer and compared token by token (keywords case-insensitively; comments, pragmas and strings verbatim); non-trivial = formatting changed the text" % len(corp),
         "on_type_edits_compared_with_model": len(mres), "model_disagreements": len(mbad),
+        "documents_whose_indentation_was_compared_with_the_model": len(ires), "indentation_disagreements": len(ibad), "indentation_levels_seen": dict(sorted(levels.items())[:12]),
+        "translator": "translators/c15_kinds.py: " + ("ok, %d kinds in the three sets, numbering cross-checked against the lexer" % len(tr_msg.split()) if tr_ok else tr_msg[:200]),
         "problems_by_kind": {k: sum(1 for p in problems if p[0] == k) for k in set(p[0] for p in problems)}, "known_finding_instances": seen_known,
     }
-    assumptions = ["token preservation is a statement about re-lexing, so the oracle is the real lexer; the Coq theorems cover the line-edit logic for an arbitrary formatter, not format_document itself (its 900 lines of spacing / alignment / wrapping rules are exercised, not modelled)",
+    assumptions = ["token preservation is a statement about re-lexing, so the oracle is the real lexer; the Coq theorems cover the line-edit logic for an arbitrary formatter and the indentation pass of format_document (its spacing / alignment / wrapping rules are exercised, not modelled)",
+                   "the indentation model takes each line's skip flag and token kinds from the harness (a transcription of the first loop of format_document over the real lexer's tokens); the kind sets and the clamp come from the source through translators/c15_kinds.py",
                    "the web IDE's own formatter (WebIdeState::format_source) is not exercised"]
     return vlib.finish(PROP, tier, "proof", cov, assumptions, t0, violations, known_lines)
 
